@@ -13,7 +13,7 @@
    GATE: C15_gate (kernel-abstract).  The model of fit is tied to the
    implementation on every run by RunICVI.ifcheck. *)
 From Coq Require Import List Bool Arith Reals.
-From ART Require Import Num NumR Vec Search Kernel BaseArt ICVI ICVI_R VecR ICVI_full ICVI_switch ICVIFuzzy ICVI_fit.
+From ART Require Import Num NumR Vec Search Kernel BaseArt ICVI ICVI_R VecR ICVI_full ICVI_switch ICVIFuzzy ICVI_fit CVI_gate.
 Import ListNotations.
 Open Scope R_scope.
 
@@ -101,6 +101,19 @@ Proof. exact icvi_fit_tracks_batch_index. Qed.
 Theorem C15_gate : forall (K : Kernel RN) (s : st (N:=RN)) x (improves : nat -> bool) m eps s' c vl,
   step_fit K s x (Some improves) m eps = Some (s', c, vl) -> (c < length (W s))%nat -> improves c = true.
 Proof. exact icvi_gate. Qed.
+(* CVIART's gate (scikit-learn's index values are an oracle): a permitted assignment strictly improves the index
+   whenever there is an index to compare, an assignment that does not is refused, and a verdict always exists *)
+Theorem C15_cviart_gate_strict :
+  forall (N : Num) ncat labels i c (lb : bool) (old new : N),
+    cvi_match ncat labels i c lb old new = true -> (2 <= ncat)%nat ->
+    index_defined labels = true -> index_defined (set_at i c labels) = true ->
+    (if lb then nltb new old else nltb old new) = true.
+Proof. exact @gate_strict. Qed.
+Theorem C15_cviart_gate_refuses_no_improvement :
+  forall (N : Num) ncat labels i c (lb : bool) (old new : N),
+    (2 <= ncat)%nat -> index_defined labels = true -> index_defined (set_at i c labels) = true ->
+    (if lb then nltb new old else nltb old new) = false -> cvi_match ncat labels i c lb old new = false.
+Proof. exact @gate_refuses_no_improvement. Qed.
 Print Assumptions C15_adds_track_the_batch_index.
 Print Assumptions C15_any_permitted_sequence_tracks_the_batch_index.
 Print Assumptions C15_fit_tracks_the_batch_index.
